@@ -2479,7 +2479,7 @@ impl WasmGenerator {
             // Boolean operations (results are i32 in WASM, extended to i64 for register storage)
             // Operands can be f64 or i64; we check operand type to emit correct comparison.
             I::Eq(a, b) => {
-                let op_type = self.infer_value_type(a);
+                let op_type = self.comparison_operand_type(a, b);
                 self.emit_value_load_typed(a, op_type, func);
                 self.emit_value_load_typed(b, op_type, func);
                 if op_type == ValType::F64 {
@@ -2490,7 +2490,7 @@ impl WasmGenerator {
                 func.instruction(&W::F64ConvertI32U);
             }
             I::Ne(a, b) => {
-                let op_type = self.infer_value_type(a);
+                let op_type = self.comparison_operand_type(a, b);
                 self.emit_value_load_typed(a, op_type, func);
                 self.emit_value_load_typed(b, op_type, func);
                 if op_type == ValType::F64 {
@@ -2501,7 +2501,7 @@ impl WasmGenerator {
                 func.instruction(&W::F64ConvertI32U);
             }
             I::Lt(a, b) => {
-                let op_type = self.infer_value_type(a);
+                let op_type = self.comparison_operand_type(a, b);
                 self.emit_value_load_typed(a, op_type, func);
                 self.emit_value_load_typed(b, op_type, func);
                 if op_type == ValType::F64 {
@@ -2512,7 +2512,7 @@ impl WasmGenerator {
                 func.instruction(&W::F64ConvertI32U);
             }
             I::Le(a, b) => {
-                let op_type = self.infer_value_type(a);
+                let op_type = self.comparison_operand_type(a, b);
                 self.emit_value_load_typed(a, op_type, func);
                 self.emit_value_load_typed(b, op_type, func);
                 if op_type == ValType::F64 {
@@ -2523,7 +2523,7 @@ impl WasmGenerator {
                 func.instruction(&W::F64ConvertI32U);
             }
             I::Gt(a, b) => {
-                let op_type = self.infer_value_type(a);
+                let op_type = self.comparison_operand_type(a, b);
                 self.emit_value_load_typed(a, op_type, func);
                 self.emit_value_load_typed(b, op_type, func);
                 if op_type == ValType::F64 {
@@ -2534,7 +2534,7 @@ impl WasmGenerator {
                 func.instruction(&W::F64ConvertI32U);
             }
             I::Ge(a, b) => {
-                let op_type = self.infer_value_type(a);
+                let op_type = self.comparison_operand_type(a, b);
                 self.emit_value_load_typed(a, op_type, func);
                 self.emit_value_load_typed(b, op_type, func);
                 if op_type == ValType::F64 {
@@ -4156,6 +4156,27 @@ impl WasmGenerator {
     /// Emit WASM instructions to load a value with type coercion.
     /// If the value's actual type (I64 pointer from GetElement) differs from the expected
     /// type (F64 value), a memory dereference is inserted automatically.
+    /// Operand type of a comparison. A register produced by `GetElement` holds the
+    /// address of the element, so its own type is I64 even when the element is a
+    /// float; comparing on I64 would then compare that address with the bits of the
+    /// other operand. If either operand is (or points to) an f64, compare as f64:
+    /// `emit_value_load_typed(.., F64)` dereferences element addresses.
+    fn comparison_operand_type(&self, a: &VPtr, b: &VPtr) -> ValType {
+        let value_type = |v: &VPtr| match v.as_ref() {
+            mir::Value::Register(r) => self
+                .getelement_registers
+                .get(r)
+                .copied()
+                .unwrap_or_else(|| self.infer_value_type(v)),
+            _ => self.infer_value_type(v),
+        };
+        if value_type(a) == ValType::F64 || value_type(b) == ValType::F64 {
+            ValType::F64
+        } else {
+            self.infer_value_type(a)
+        }
+    }
+
     fn emit_value_load_typed(&mut self, value: &VPtr, expected: ValType, func: &mut Function) {
         use wasm_encoder::Instruction as W;
 
